@@ -37,6 +37,12 @@ CLAIMED = {
         text="Seeded search over interleavings of 2-5 client tasks calling the real SymbolTableStruct (fresh and global) with statement-level preemption inside every method; every history is checked for linearizability against a sequential intern table and for the bijection invariants. Exploration: evidence about the schedules sampled, each replayable from its file.",
         design_ref="DESIGN.md 5.5",
     ),
+    "C27": dict(
+        engine="E-REPL",
+        technique="deterministic simulation with fault injection: sessions of the real REPL evaluator with checker-rejected inputs and an injected checker failure at a seeded phase boundary as the faults, under seeded schedules of the parallel method checks; differential oracles (session without the rejected inputs, batch run of the accepted prefix)",
+        text="Generated sessions are fed to the real repl evaluator inside the simulator. The faults are inputs the checker rejects after partial work and a failpoint that fails a valid input at the k-th phase boundary of Checker.CheckProgram, which exercises the snapshot/restore path at every depth. Every other input must behave exactly as in the session with the rejected inputs removed, and accepted inputs must print what a batch run of the accepted prefix prints. Exploration level.",
+        design_ref="DESIGN.md 5.8",
+    ),
     "C33": dict(
         engine="E-CANCEL",
         technique="deterministic simulation with fault injection: context cancellation injected at a seeded scheduler tick into 32 non-terminating program shapes compiled with abort checks; bounded liveness under fair scheduling after the fault",
@@ -46,7 +52,7 @@ CLAIMED = {
 }
 
 PLANNED = {pid: "simulation check designed in DESIGN.md section 5, engine not built yet" for pid in
-           ["C01", "C10", "C27", "C34"]}
+           ["C01", "C10", "C34"]}
 
 NA = {
     "C02": "pure function of one program run by one thread: no schedule, clock or fault in what it quantifies over (type soundness per program)",
